@@ -230,8 +230,18 @@ def run_case(case, ctx):
             sample = np.round(sample * (1.0 if np.ptp(sample) > 30 else 10.0)).astype(dt)
         elif dt == "float32":
             sample = sample.astype(np.float32)
+        # memory layout of the caller's array: row-major, column-major (np.array([x, y]).T, DataFrame.to_numpy()), a strided view
+        layout = ["C", "F", "transposed", "strided-view"][int(case["sub"]) % 4]
+        ctx.cls("sample-layout", layout)
+        if layout == "F":
+            sample = np.asfortranarray(sample)
+        elif layout == "transposed":
+            sample = np.array([sample[:, 0], sample[:, 1]]).T
+        elif layout == "strided-view":
+            sample = np.c_[sample, sample][:, ::2][:, :2] if sample.shape[1] == 2 else sample
+        pristine = sample.copy()
         con = DirectSamplingContour(_Dummy2D(), case["alpha"], deg_step=case["deg_step"], sample=sample)
-        ctx.check("c03.sample-untouched", con.sample is sample or np.array_equal(con.sample, sample), "the supplied sample was replaced")
+        ctx.check("c03.sample-untouched", (con.sample is sample or np.array_equal(con.sample, pristine)) and sample.shape == pristine.shape and sample.tobytes() == pristine.tobytes(), "the supplied sample was replaced or modified in place", layout=layout, dtype=str(sample.dtype))
         ctx.nontrivial = sample.shape[0] >= 50 and 360 // case["deg_step"] >= 6
         ctx.sample = {"cloud": case["cloud"], "n": int(sample.shape[0]), "alpha": case["alpha"], "deg_step": case["deg_step"], "first_vertices": np.asarray(con.coordinates)[:3].tolist()}
     else:
